@@ -387,6 +387,11 @@ class Translator:
                     return Val(f"(fltb E {a.t} {b.t})", "B", d)
                 if op is ast.Gt:
                     return Val(f"(fltb E {b.t} {a.t})", "B", d)
+                # a <= b is (not b < a) for ordered (non-NaN) values; the model has no NaN
+                if op is ast.LtE:
+                    return Val(f"(negb (fltb E {b.t} {a.t}))", "B", d)
+                if op is ast.GtE:
+                    return Val(f"(negb (fltb E {a.t} {b.t}))", "B", d)
             if (a.sh, b.sh) == ("EIG", "S") and op is ast.Gt:
                 return Val(a.t, "EIGGT", d, eig=b.t)
             bail(node, f"comparison {ast.unparse(node)} on shapes {(a.sh, b.sh)}")
@@ -417,7 +422,8 @@ class Translator:
             parts.append("[" + "; ".join(cur) + "]")
         return " ++ ".join(parts)
 
-    SR1_FALLBACK = "self.h_inv is not None and self.h is None"
+    # h-from-inverse fallbacks (SR1.conditions_met, BFGSDampedUpdate._updated_h_inv): outside the model, h is given
+    SR1_FALLBACK = ("self.h_inv is not None and self.h is None", "self.h is None")
 
     def block(self, stmts, ctx, prefix, want):
         """-> (value term, shape, denoms term).  `prefix`: function wrapping a term in the enclosing lets
@@ -482,10 +488,10 @@ class Translator:
             return wrap(t), sh, wrap(f"({self.dens_term(dens)}) ++ ({dn})" if dens else dn)
         if isinstance(st, ast.If):
             test_src = ast.unparse(st.test)
-            if test_src == self.SR1_FALLBACK:
+            if test_src in self.SR1_FALLBACK:
                 body = [x for x in st.body if not self.is_logger(x)]
                 if st.orelse or [ast.unparse(x) for x in body] != ["self.h = np.linalg.inv(self.h_inv)"]:
-                    bail(st, "SR1 h-from-inverse fallback changed")
+                    bail(st, "h-from-inverse fallback changed")
                 ctx["notes"].append("h-from-inverse fallback (h is None) outside the model: h is always given")
                 return self.block(rest, ctx, prefix, want)
             c = self.expr(st.test, ctx)
@@ -716,8 +722,8 @@ class Translator:
                             x = ast.unparse(val.test).split()[0]
                             e = val.orelse
                             es = ast.unparse(e)
-                            if es == f"{x}.copy()":
-                                term = "x"
+                            if es in (f"{x}.copy()", f"np.array({x}, dtype=float)"):
+                                term = "x"        # a (float) copy: the model has no dtype
                             elif local[x] == "m" and es == f"{x}[:, {idx_name}][{idx_name}, :]":
                                 term = "msel_rows idxs (msel_cols idxs x)"
                             elif local[x] == "m" and es == f"{x}[{idx_name}, :][:, {idx_name}]":
@@ -759,17 +765,38 @@ class Translator:
         if n_stmts != 7:
             raise Untranslatable(f"HessianUpdater.__init__ has {n_stmts} statements, expected 7")
 
+        def norm(stmts):
+            """statement text with docstrings / logger calls removed and exception messages blanked
+            (a reworded message does not change the control flow)"""
+            class N(ast.NodeTransformer):
+                def visit_Raise(s, node):
+                    if isinstance(node.exc, ast.Call):
+                        node.exc.args = [ast.Constant(value="...") if isinstance(a, (ast.Constant, ast.JoinedStr)) else a
+                                         for a in node.exc.args]
+                    return node
+
+                def generic_visit(s, node):
+                    super().generic_visit(node)
+                    for fld in ("body", "orelse"):
+                        b = getattr(node, fld, None)
+                        if isinstance(b, list) and b and isinstance(b[0], ast.stmt):
+                            nb = [x for x in b if not self.is_doc(x) and not self.is_logger(x)]
+                            setattr(node, fld, nb or ([ast.Pass()] if fld == "body" else []))
+                    return node
+            import copy
+            mod = N().visit(ast.Module(body=copy.deepcopy(list(stmts)), type_ignores=[]))
+            return "\n".join(ast.unparse(ast.fix_missing_locations(s)) for s in mod.body)
+
         def strip(fn):
-            body = [s for s in fn.body if not self.is_doc(s)]
-            return "\n".join(ast.unparse(s) for s in body)
+            return norm(fn.body)
         uh = strip(self.method("HessianUpdater", "updated_h"))
-        want_h = ("if self.h is None:\n    raise RuntimeError('Cannot update H, no Hessian defined')\n"
+        want_h = ("if self.h is None:\n    raise RuntimeError('...')\n"
                   "if self._h_init is None:\n    return self._updated_h\n"
                   "return self._matrix_in_full_space(self._h_init, self._updated_h)")
         if uh != want_h:
             raise Untranslatable("HessianUpdater.updated_h control flow changed")
         uhi = strip(self.method("HessianUpdater", "updated_h_inv"))
-        want_hi = ("if self.h_inv is None:\n    raise RuntimeError('Cannot update H^-1, no inverse defined')\n"
+        want_hi = ("if self.h_inv is None:\n    raise RuntimeError('...')\n"
                    "if self._h_inv_init is None:\n    return self._updated_h_inv\n"
                    "return self._matrix_in_full_space(self._h_inv_init, self._updated_h_inv)")
         if uhi != want_hi:
@@ -789,20 +816,18 @@ class Translator:
                 fn = n
         if fn is None:
             raise Untranslatable(f"{BASE_REL}: update_h_from_old_h not found")
-        body = [s for s in fn.body if not self.is_doc(s) and not isinstance(s, ast.Assert)]
-        got = "\n".join(ast.unparse(s) for s in body)
+        got = norm([s for s in fn.body if not isinstance(s, ast.Assert)])
         want = ("idxs = self.active_mol_indexes\n"
                 "for update_type in hessian_update_types:\n"
                 "    updater = update_type(h=old_coords._h, s=np.array(self) - np.array(old_coords), "
                 "y=self._g - old_coords._g, subspace_idxs=idxs)\n"
                 "    if not updater.conditions_met:\n"
-                "        logger.info(f'Conditions for {update_type} not met')\n"
                 "        continue\n"
                 "    new_h = updater.updated_h\n"
                 "    assert self.h_or_h_inv_has_correct_shape(new_h)\n"
                 "    self._h = new_h\n"
                 "    return None\n"
-                "raise RuntimeError('Could not update the Hessian - no suitable update strategies')")
+                "raise RuntimeError('...')")
         if got != want:
             raise Untranslatable(f"{BASE_REL}: update_h_from_old_h control flow changed")
 
